@@ -46,6 +46,9 @@ func extractLagStates(states data.ND1Float64) []float64 {
 
 func packLagStates(lagged []float64) data.ND2Float64 {
 	result := data.NewArray2DFloat64(1, len(lagged))
+	if len(lagged) > 0 {
+		result.Apply([]int{0, 0}, 1, 1, lagged)
+	}
 	return result
 }
 
@@ -81,7 +84,7 @@ func lag(inflow data.ND1Float64,
 
 		for i := 0; i < inflow.Len1(); i++ {
 			idxInflow[0] = i
-			lagged[i+inflow.Len1()] = inflow.Get(idxInflow)
+			lagged[lagSteps-inflow.Len1()+i] = inflow.Get(idxInflow)
 		}
 	} else {
 		for i := 0; i < lagSteps; i++ {
